@@ -490,6 +490,61 @@ def drifted(ctx):
     return h != ANCHOR_HASH
 
 
+# ------------------------------------------------------------------ the OCaml driver against in-Coq evaluation (thorough tier)
+
+def coq_list(b):
+    return "[" + "; ".join(str(x) for x in b) + "]"
+
+
+def coq_opt_str(h):
+    if h == "-":
+        return "None"
+    return "(Some %s)" % coq_list(b"" if h == "e" else bytes.fromhex(h))
+
+
+def coq_opt_num(h):
+    return "None" if h == "-" else "(Some %s)" % h
+
+
+def coq_crosscheck(ctx, marshal_samples, decode_samples):
+    """marshal_samples: (driver `m` line, driver output); decode_samples: (bytes, nfds, driver output).
+    Generates one .v file in which Coq's own vm_compute must reproduce what the extracted driver printed."""
+    out = ["From RB Require Import Base.Prelude Msg.Header Msg.HeaderSpec Msg.MsgSpec Msg.HeaderDecode."]
+    n = 0
+    for line, res in marshal_samples:
+        p = line.split(" ")
+        body = p[13].split(":")
+        typ = {"1": "MCall", "2": "MReply", "3": "MError", "4": "MSignal"}.get(p[3], "MInvalid")
+        m = ("{| m_typ := %s; m_flags := %s; m_be := %s; m_reply_serial := %s; m_interface := %s; m_destination := %s; "
+             "m_sender := %s; m_member := %s; m_object := %s; m_error_name := %s; m_body := %s; m_sig := %s; m_nfds := %s |}" % (
+                 typ, p[4], "true" if p[2] == "B" else "false", coq_opt_num(p[6]), coq_opt_str(p[7]), coq_opt_str(p[8]),
+                 coq_opt_str(p[9]), coq_opt_str(p[10]), coq_opt_str(p[11]), coq_opt_str(p[12]),
+                 coq_list(b"" if body[1] == "-" else bytes.fromhex(body[1])), coq_list(b"" if body[2] == "-" else bytes.fromhex(body[2])), body[3]))
+        f = fields_of(res)
+        want = "Err" if f["H"] == "err" else "Ok %s" % coq_list(bytes.fromhex(f["H"]))
+        out.append("Example m%d : marshal_msg %s %s = %s. Proof. vm_compute. reflexivity. Qed." % (n, m, p[5], want))
+        if f["H"] != "err":
+            out.append("Example s%d : spec_header %s %s = %s. Proof. vm_compute. reflexivity. Qed." % (n, m, p[5], coq_list(bytes.fromhex(f["S"]))))
+        n += 1
+    for b, nf, res in decode_samples:
+        d = parse_decoded(res[2:])
+        if not d["ok"]:
+            out.append("Example d%d : decode_header %s = Err. Proof. vm_compute. reflexivity. Qed." % (n, coq_list(b)))
+        else:
+            h = ("{| h_be := %s; h_typ := %s; h_flags := %s; h_body_len := %s; h_serial := %s; h_reply_serial := %s; h_interface := %s; "
+                 "h_destination := %s; h_sender := %s; h_member := %s; h_object := %s; h_error_name := %s; h_signature := %s; h_unix_fds := %s |}" % (
+                     "true" if d["be"] == "1" else "false", d["t"], d["f"], d["bl"], d["ser"], coq_opt_num(d["rs"]), coq_opt_str(d["i"]),
+                     coq_opt_str(d["d"]), coq_opt_str(d["sn"]), coq_opt_str(d["m"]), coq_opt_str(d["p"]), coq_opt_str(d["e"]),
+                     coq_opt_str(d["g"]), coq_opt_num(d["fd"])))
+            out.append("Example d%d : decode_header %s = Ok (%s, %s). Proof. vm_compute. reflexivity. Qed." % (n, coq_list(b), h, d["used"]))
+        n += 1
+    try:
+        vlib.coq_eval("c05_cross", "\n".join(out) + "\n")
+        ctx.extra["driver_vs_coq_vm_compute"] = "%d samples agree" % n
+    except vlib.BrokenTie as bt:
+        ctx.tie_broken("the extracted OCaml driver differs from in-Coq vm_compute evaluation of the model", bt.detail[-1500:])
+
+
 def builds(ctx):
     exe = vlib.harness_build(["c05"])["c05"]
     vlib.coq_make(["Msg/Ops.vo"])
@@ -676,6 +731,9 @@ def run(ctx):
         elif corr:
             ctx.tie_broken("correspondence: " + corr[0], "line: %s\nimpl: %s\nmodel: %s" % (l[:500], o[:1000], mo[:1000]))
     ctx.count("corpus", ncorpus)
+    if ctx.tier == "thorough":
+        picks = [i for i, l in enumerate(lines) if l.startswith("m ") and parsed[i] is not None and len(l) < 1500][:: max(1, len(lines) // 12)][:12]
+        coq_crosscheck(ctx, [(dl[i], model[i]) for i in picks], [])
 
     # ---------------- the D19 witness: a 64 MiB object path (only the implementation; the property is checked directly)
     big = []
